@@ -168,7 +168,7 @@ Proof.
   - unfold authorize_par.
     destruct (key_of s uri) as [k|]; [|apply decay_refl].
     destruct (par (st s) k) as [pr|]; [|apply decay_refl].
-    match goal with |- context [if ?c then _ else _] => destruct c; [apply decay_eq_tables; reflexivity|] end.
+    repeat match goal with |- context [if ?c then fail _ _ else _] => destruct c; [apply decay_eq_tables; reflexivity|] end.
     match goal with |- context [authorize_core cfg ?s1 ?cl ?a'] =>
       eapply (decay_trans _ _ (st s1)); [apply decay_eq_tables; reflexivity|exact (decay_authorize_core cfg s1 cl a')] end.
   - match goal with |- context [device_authorize cfg s ?x1 ?x2 ?x3 ?x4] => destruct (device_authorize_tables cfg s x1 x2 x3 x4) as [Hc [Ha [Hr _]]] end.
